@@ -267,8 +267,9 @@ def run_cli(cli, world, cfg, args, text):
         ip, op = os.path.join(W, "cli_in.txt"), os.path.join(W, "cli_out.txt")
         with open(ip, "wb") as f:
             f.write(text.encode("utf-8"))
-        if os.path.exists(op):
-            os.remove(op)
+        # the output file exists already and is longer than anything this run writes: what the run leaves is exactly its own output
+        with open(op, "wb") as f:
+            f.write(("以前の内容\n" * 2000).encode("utf-8"))
         p = subprocess.run(argv + ["-o", op, ip], stdin=subprocess.DEVNULL, stdout=subprocess.PIPE, stderr=subprocess.PIPE, timeout=120, env=dict(os.environ, RUST_BACKTRACE="0"))
         console = p.stdout
         data = open(op, "rb").read() if os.path.exists(op) else b""
@@ -387,6 +388,64 @@ def config_pass(out, tier):
                       {"kind": "s2i", "cmd": ["cfg-replay"], "behaviour": m.get("abstract"), "detail": {k: m[k] for k in m if k != "abstract"}})
 
 
+def construct_pass(out, tier, cli):
+    """PyConstruct.tla: which system dictionary sudachipy.Dictionary(...) ends up with, or that it refuses; every scenario TLC enumerates is given
+    to the real constructor (S->I).  Behaviour beyond the listed statement: disagreement is reported as drift, not as a violation."""
+    lines = []
+    r = C.tlc_mc("MC_PyConstruct", "MC_PyConstruct.cfg", workers=4, sink=lines.append, timeout=6000)
+    if r.violated:
+        out.cov["drift"].append(f"PyConstruct: the documented promise {r.violated} does not hold on the transcription")
+    out.add_mc("MC_PyConstruct", r, {})
+    scen = []
+    for ln in lines:
+        if "REPLAY" not in ln:
+            continue
+        start = ln.find(', "') + 2
+        scen.append(json.loads(json.loads(ln[start:ln.rstrip().rfind(">>")])))
+    if tier == "quick":
+        scen = [x for i, x in enumerate(scen) if i % 4 == C.seed() % 4]
+    root = os.path.join(C.WORK, "pyconstruct")
+    if os.path.exists(root):
+        shutil.rmtree(root)
+    os.makedirs(os.path.join(root, "files", "dir"))
+    os.makedirs(os.path.join(root, "files", "res"))
+    shutil.copytree(os.path.join(PYPKG, "sudachipy"), os.path.join(root, "pkg", "sudachipy"))
+    res = os.path.join(root, "pkg", "sudachipy", "resources")
+    tres = os.path.join(C.REPO, "sudachi", "tests", "resources")
+    with open(os.path.join(res, "sudachi.json"), "w") as f:     # an installation whose packaged default names no dictionary and needs no large matrix
+        json.dump({"systemDict": None, "characterDefinitionFile": "char.def",
+                   "oovProviderPlugin": [{"class": "com.worksap.nlp.sudachi.SimpleOovPlugin", "oovPOS": ["名詞", "普通名詞", "一般", "*", "*", "*"], "leftId": 0, "rightId": 0, "cost": 30000}]}, f)
+    shutil.copy(os.path.join(tres, "char.def"), os.path.join(res, "char.def"))
+    shutil.copy(os.path.join(tres, "char.def"), os.path.join(root, "files", "res", "char.def"))
+    dic = os.path.join(root, "files", "A.dic")
+    p = subprocess.run([cli, "build", "-m", os.path.join(tres, "matrix_10x10.def"), "-o", dic, os.path.join(tres, "lex.csv")], stdout=subprocess.PIPE, stderr=subprocess.PIPE)
+    if p.returncode != 0:
+        raise C.ToolError("building the scenario dictionary failed")
+    shutil.copy(dic, os.path.join(root, "files", "B.dic"))
+    for k in ("small", "core", "full"):
+        d = os.path.join(root, "stubs", k, "sudachidict_" + k, "resources")
+        os.makedirs(d)
+        shutil.copy(dic, os.path.join(d, "system.dic"))
+        open(os.path.join(root, "stubs", k, "sudachidict_" + k, "__init__.py"), "w").close()
+    ip, op = os.path.join(root, "scenarios.json"), os.path.join(root, "out.json")
+    json.dump(scen, open(ip, "w"))
+    env = {k: v for k, v in os.environ.items() if k != "PYTHONPATH"}
+    p = subprocess.run([sys.executable, os.path.join(PYDRV, "construct_py.py"), root, ip, op], env=dict(env, RUST_BACKTRACE="0"), cwd=os.path.join(root, "files", "dir"),
+                       stdout=subprocess.PIPE, stderr=subprocess.PIPE, text=True, timeout=3000)
+    if p.returncode != 0 or not os.path.exists(op):
+        out.cov["drift"].append("PyConstruct: the constructor driver did not finish: " + p.stderr[-300:])
+        return
+    got = json.load(open(op))
+    if len(got) < 500 or not any(g["got"]["res"] == "ok" and g["got"]["sys"] == "pkg_small" for g in got) or not any(g["got"]["warn"] for g in got):
+        raise C.ToolError("vacuous: constructor scenarios were not executed (or never reached a packaged dictionary / the deprecation warning)")
+    bad = [g for g in got if (g["got"]["res"], g["got"]["sys"] if g["got"]["res"] == "ok" else "none", g["got"]["warn"]) != (g["want"]["res"], g["want"]["sys"] if g["want"]["res"] == "ok" else "none", g["want"]["warn"])]
+    out.cov["constructor_scenarios_replayed"] = len(got)
+    out.cov["evaluations"] += len(got)
+    if bad:
+        out.cov["drift"].append(f"PyConstruct: the real Dictionary constructor differs from the specification in {len(bad)} of {len(got)} scenarios, e.g. " +
+                                json.dumps({"s": bad[0]["s"], "want": bad[0]["want"], "got": bad[0]["got"]}, ensure_ascii=False)[:500])
+
+
 def replay_case(path, world, cli):
     """re-run the recorded session / command-line run on the current code and validate what it does now"""
     obj = json.load(open(path))
@@ -431,6 +490,7 @@ def run(tier, replay=None):
     events, rej = python_half(out, tier, world)
     cevents, crej = cli_half(out, tier, world, cli)
     config_pass(out, tier)
+    construct_pass(out, tier, cli)
     calls = [e for e in events if e["ev"] == "call"]
     need = {
         "a failing call with a mode override": any(e["op"] == "tokenize" and e["res"] == "err" and e["args"]["mode"] != -1 for e in calls),
